@@ -6,6 +6,7 @@ CONSTANTS
   EchoChoices <- EC_one
   ThirdChoices <- TC_some
   Presence <- P_all
+  SkewChoices <- SK_none
 INVARIANT TypeOK
 INVARIANT SuccessUnderDuplicates
 INVARIANT ScenarioOut
